@@ -154,12 +154,22 @@ pub fn error(code: u16, msg: &str) -> Vec<u8> {
 pub fn oack(opts: &[(&str, &str)]) -> Vec<u8> {
     encode(&RPacket::Oack(opts.iter().map(|(a, b)| (a.as_bytes().to_vec(), b.as_bytes().to_vec())).collect()))
 }
+thread_local! {
+    static MODE: std::cell::RefCell<Vec<u8>> = std::cell::RefCell::new(b"octet".to_vec());
+}
+
+/// Spelling of the transfer mode used by `request` on this thread from now on (RFC 1350: any mix of upper and lower case).
+pub fn set_mode(m: &str) {
+    MODE.with(|x| *x.borrow_mut() = m.as_bytes().to_vec());
+}
+
 pub fn request(write: bool, filename: &[u8], opts: &[(String, String)]) -> Vec<u8> {
     let options = opts.iter().map(|(a, b)| (a.as_bytes().to_vec(), b.as_bytes().to_vec())).collect();
+    let mode = MODE.with(|x| x.borrow().clone());
     let p = if write {
-        RPacket::Wrq { filename: filename.to_vec(), mode: b"octet".to_vec(), options }
+        RPacket::Wrq { filename: filename.to_vec(), mode, options }
     } else {
-        RPacket::Rrq { filename: filename.to_vec(), mode: b"octet".to_vec(), options }
+        RPacket::Rrq { filename: filename.to_vec(), mode, options }
     };
     encode(&p)
 }
